@@ -25,10 +25,10 @@ type lifeSpec struct {
 	OnReplay   func(s *Sim, os []Oracle)
 }
 
-var lifeActions = []string{"storeNew", "storeUpdate", "complete", "cancel", "terminate", "renew", "migrate", "claim", "advance", "storeHostile", "seed", "vstorage", "bankDrain", "resetNode", "debtCombo", "keepAlive", "permission", "storeStale", "migRotate", "fault"}
+var lifeActions = []string{"storeNew", "storeUpdate", "complete", "cancel", "terminate", "renew", "migrate", "claim", "advance", "storeHostile", "seed", "vstorage", "bankDrain", "resetNode", "debtCombo", "keepAlive", "permission", "storeStale", "migRotate", "fault", "forceAfterRenew", "settleAfterMig"}
 
 // actions that are off unless a spec gives them a weight
-var lifeOptIn = map[string]bool{"storeHostile": true, "seed": true, "vstorage": true, "bankDrain": true, "resetNode": true, "debtCombo": true, "keepAlive": true, "permission": true, "storeStale": true, "migRotate": true, "fault": true}
+var lifeOptIn = map[string]bool{"storeHostile": true, "seed": true, "vstorage": true, "bankDrain": true, "resetNode": true, "debtCombo": true, "keepAlive": true, "permission": true, "storeStale": true, "migRotate": true, "fault": true, "forceAfterRenew": true, "settleAfterMig": true}
 
 func (sp *lifeSpec) newSim(t TB) (*Sim, *LifeCfg, []Oracle) {
 	os := sp.Oracles()
@@ -70,7 +70,7 @@ func (sp *lifeSpec) property() func(*rapid.T) {
 				"storeNew": cfg.GenStoreNew, "storeUpdate": cfg.GenStoreUpdate, "complete": cfg.GenComplete,
 				"cancel": cfg.GenCancel, "terminate": cfg.GenTerminate, "renew": cfg.GenRenew,
 				"migrate": cfg.GenMigrate, "claim": cfg.GenClaim, "advance": cfg.GenAdvance,
-				"storeHostile": cfg.GenStoreHostile, "seed": cfg.GenSeed, "vstorage": cfg.GenVstorage, "bankDrain": cfg.GenBankDrain, "resetNode": cfg.GenResetNode, "debtCombo": cfg.GenDebtCombo, "keepAlive": cfg.GenKeepAlive, "permission": cfg.GenPermission, "storeStale": cfg.GenStoreStale, "migRotate": cfg.GenMigrationAcrossRotation, "fault": cfg.GenFault,
+				"storeHostile": cfg.GenStoreHostile, "seed": cfg.GenSeed, "vstorage": cfg.GenVstorage, "bankDrain": cfg.GenBankDrain, "resetNode": cfg.GenResetNode, "debtCombo": cfg.GenDebtCombo, "keepAlive": cfg.GenKeepAlive, "permission": cfg.GenPermission, "storeStale": cfg.GenStoreStale, "migRotate": cfg.GenMigrationAcrossRotation, "fault": cfg.GenFault, "forceAfterRenew": cfg.GenForceAfterRenew, "settleAfterMig": cfg.GenSettleAfterMigration,
 			}
 			var menu []string
 			for _, k := range lifeActions {
@@ -268,7 +268,7 @@ var specC04 = &lifeSpec{
 	Nontrivial: func(s *Sim, os []Oracle) bool {
 		return os[0].(*C04Oracle).Settled > 0 && s.Labels["claim+"] > 0
 	},
-	Weights:  map[string]int{"complete": 5, "advance": 4, "storeNew": 3, "storeUpdate": 2, "renew": 3, "migrate": 2, "claim": 2, "terminate": 2, "cancel": 1, "keepAlive": 1, "migRotate": 1},
+	Weights:  map[string]int{"complete": 5, "advance": 4, "storeNew": 3, "storeUpdate": 2, "renew": 3, "migrate": 2, "claim": 2, "terminate": 2, "cancel": 1, "keepAlive": 1, "migRotate": 1, "settleAfterMig": 2},
 	Drain:    true,
 	MaxSteps: 35,
 	Finish: func(s *Sim, cfg *LifeCfg, os []Oracle) {
@@ -402,7 +402,7 @@ var specC16 = &lifeSpec{
 		o := os[0].(*C16Oracle)
 		return (o.Contended > 0 || o.StaleTried > 0) && o.Completed > 0
 	},
-	Weights:  map[string]int{"complete": 6, "advance": 3, "storeNew": 2, "storeUpdate": 3, "storeStale": 5, "permission": 1, "cancel": 2, "terminate": 1, "renew": 3, "migrate": 0, "claim": 0},
+	Weights:  map[string]int{"complete": 6, "advance": 3, "storeNew": 2, "storeUpdate": 3, "storeStale": 5, "permission": 1, "cancel": 2, "terminate": 1, "renew": 2, "migrate": 0, "claim": 0, "forceAfterRenew": 3},
 	MaxSteps: 40,
 }
 
